@@ -27,6 +27,7 @@ CONSTANTS
   Matches,                    \* [Regexes \X Scopes -> BOOLEAN]          (re.search)
   Supported,                  \* [CfgAlgs \X QueryOps -> BOOLEAN]        (algorithm's check for that operator)
   HasWeightCfg,               \* [cfg id -> BOOLEAN]: exported op_config carries weight_tensor_config
+  ActCfg,                     \* [cfg id -> BOOLEAN]: the config quantises activations with integer compute (static range): needs statistics
   ScopePairs,                 \* pairs <<scope as calibration sees an operator, scope as quantization sees it>> (C10)
   Lists,                      \* sequence of rule lists that load_quantization_recipe may be called with
   MaxLen,                     \* history bound
@@ -103,7 +104,12 @@ Next == \/ \E r \in Regexes, o \in OpSels, ca \in CfgAlgs : Add(r, o, ca)
         \/ \E i \in 1..Len(Lists) : Load(i)
 Spec == Init /\ [][Next]_vars
 
+\* need_calibration(): some rule of the store carries a static-range config (whatever its algorithm or operator)
+NeedCal(rs) == \E i \in 1..Len(rs) : \E k \in 1..Len(rs[i].items) : ActCfg[rs[i].items[k].cfg]
+
 \* ------------------------------------------------------------------ properties (design level)
+\* calibration is asked for whenever some operator can resolve to a static-range config (C10: statistics are never missing)
+NeedCalSound == \A q \in QueryOps \X Scopes : LET r == Resolve(rules, q[1], q[2]) IN (r[1] # Noq /\ ActCfg[r[2]]) => NeedCal(rules)
 UniqueOpPerRegex == \A i \in 1..Len(rules) : \A j, k \in 1..Len(rules[i].items) :
                        j # k => rules[i].items[j].op # rules[i].items[k].op
 UniqueRegex == \A i, j \in 1..Len(rules) : i # j => rules[i].regex # rules[j].regex
@@ -135,5 +141,5 @@ Trans == [hist |-> hist, last |-> last, export |-> Export(rules),
 EmitT == PrintT(<<"TRANS", ToJson([hist |-> hist, last |-> last, export |-> Export(rules),
                                   resolve |-> {<<q, Resolve(rules, q[1], q[2])>> : q \in QueryOps \X Scopes},
                                   load |-> LoadAll(Export(rules))[1],
-                                  rt |-> (LoadAll(Export(rules))[2] = rules)])>>)
+                                  rt |-> (LoadAll(Export(rules))[2] = rules), needcal |-> NeedCal(rules)])>>)
 =============================================================================
